@@ -170,7 +170,15 @@ Section Rabin.
                               if approved then (s2, negb oe && negb oj)
                               else
                                 let '(a'', ok) := verify_justification n a' idx own_valid in
-                                (mkrst (putb dealer a'' (r_ver s2)) o' (r_commits s2)
+                                (* the dealer's aggregator and the verifier of the own deal hold the SAME
+                                   *Response (both ProcessResponse calls store the pointer they are given):
+                                   when the own justification is accepted, verifyJustification sets
+                                   r.Approved = true and the dealer's own count of approvals grows too *)
+                                let o'' := if ok
+                                           then mkagg (map (fun e => if fst e =? idx then (idx, true) else e) (a_resps o'))
+                                                      (a_bad o') (a_t o') (a_sec o')
+                                           else o' in
+                                (mkrst (putb dealer a'' (r_ver s2)) o'' (r_commits s2)
                                        (if ok then del_pend me idx (r_pend s2) else r_pend s2),
                                  if ok then negb oe && oj else oe)
                           end
